@@ -6,6 +6,7 @@ import (
 	"go/token"
 	"go/types"
 	"regexp"
+	"sort"
 	"strings"
 
 	"golang.org/x/tools/go/ssa"
@@ -318,6 +319,55 @@ func init() {
 			c.mayAccept(p, "C04.strict", "a context of 255 bytes can be signed with", p.Func(pkg, "", "SignTo"), map[string]lat{"ctx": latSliceLen(255)})
 			c.evalAcceptRule(p, "C04.strict", "a context of 256 bytes is refused by SignTo", p.Func(pkg, "", "SignTo"), map[string]lat{"ctx": latSliceLen(256)}, nil, false)
 			c.mayAccept(p, "C04.strict", "a signature over a context of 255 bytes can verify", p.Func(pkg, "", "Verify"), map[string]lat{"ctx": latSliceLen(255)})
+			// the pure-ML-DSA prefix is composed in SignTo and Verify only: every other entry point (crypto.Signer,
+			// the sign.Scheme methods) reaches the internal functions through them; the raw Sign_internal /
+			// Verify_internal wrappers have no caller outside the tests
+			{
+				static := map[string][]string{}
+				for f := range p.AllFuncs {
+					if f.Blocks == nil || !isCirclFunc(f) {
+						continue
+					}
+					for _, b := range f.Blocks {
+						for _, in := range b.Instrs {
+							if ci, ok := in.(ssa.CallInstruction); ok {
+								if cal := ci.Common().StaticCallee(); cal != nil {
+									static[fname(cal)] = append(static[fname(cal)], fname(f))
+								}
+							}
+						}
+					}
+				}
+				ipn := pkg + "/internal"
+				for callee, allowed := range map[string][]string{
+					"(*" + pkg + ".PrivateKey).unsafeSignInternal": nil,
+					pkg + ".unsafeVerifyInternal":                  nil,
+					ipn + ".SignTo":                                {pkg + ".SignTo", "(*" + pkg + ".PrivateKey).unsafeSignInternal"},
+					ipn + ".Verify":                                {pkg + ".Verify", pkg + ".unsafeVerifyInternal"},
+				} {
+					what := callee + " is called only from the functions that compose the message prefix"
+					var bad []string
+					for _, caller := range static[callee] {
+						ok := false
+						for _, a := range allowed {
+							if a == caller || strings.HasPrefix(caller, a+"$") {
+								ok = true
+							}
+						}
+						if !ok {
+							bad = append(bad, caller)
+						}
+					}
+					sort.Strings(bad)
+					if callee == ipn+".SignTo" && len(static[callee]) == 0 {
+						c.undecided("C04.domsep", what, "no caller found", "")
+					} else if len(bad) > 0 {
+						c.bad("C04.domsep", what, "called from "+strings.Join(bad, ", ")+": that path signs / verifies M itself instead of 0 ‖ len(ctx) ‖ ctx ‖ M", "")
+					} else {
+						c.ok("C04.domsep", what, fmt.Sprintf("%d callers, all listed", len(static[callee])), "")
+					}
+				}
+			}
 			ip := pkg + "/internal"
 			sw := "(*internal/sha3.State).Write"
 			c.transcriptRule(p, "C04.domsep", "signing absorbs tr, then key ‖ rnd ‖ μ", p.Func(ip, "", "SignTo"), nil, sw, 1, []string{"param#0.tr", "param#0.key", "param#2", "local:[64]byte", "…"})
